@@ -163,6 +163,10 @@ func (sn *Snap) CanonRouting() string {
 	if t := vsched.Pending(); t > 0 {
 		fmt.Fprintf(&b, "\nTASKS %d", t)
 	}
+	if len(s.Held) > 0 {
+		// held closures are a function of (state before the operation, operation, cut point)
+		fmt.Fprintf(&b, "\nHELD %d tasks of %s", len(s.Held), s.HeldDesc)
+	}
 	return b.String()
 }
 
